@@ -173,11 +173,10 @@ class Recording(object):
                 self._mts.close()
         except Exception:
             pass
-        for m in getattr(self.reader, '_mmaps', []) or []:
-            try:
-                m._mmap.close()
-            except Exception:
-                pass
+        # (the readers' memory maps are NOT closed by hand: the code under test may legitimately
+        # still hold them, and a closed map that is read again kills the interpreter instead of
+        # giving a verdict; dropping the references lets them go)
+        self.reader = None
 
     def expected_part_bounds(self):
         cfg = self.cfg
